@@ -8,7 +8,7 @@ only = sys.argv[1:]
 from concurrent.futures import ThreadPoolExecutor
 PAR = int(os.environ.get("EVAL_PAR", "3"))       # seeds evaluated concurrently (each in its own worktree/replay dir)
 WORKERS = os.environ.get("EVAL_WORKERS", "6")   # symgo workers per seed
-extra = {"C08": ["C03"], "C14": ["C03"], "C15": ["C03"], "C10": ["C03"], "C09": ["C03"], "C16": ["C06", "C18"], "C01": ["C03", "C07"]}
+extra = {"C08": ["C03"], "C14": ["C03"], "C15": ["C03"], "C10": ["C03"], "C09": ["C03"], "C16": ["C06", "C18"], "C01": ["C09", "C03", "C07"], "C02": []}
 
 def evaluate(d):
     name = os.path.basename(d)
